@@ -263,7 +263,7 @@ def run_lines_resilient(exe, lines, env=None, per_line_s=0.02, base_s=20.0):
             out.append(verdict)
             i += 1
             restarts += 1
-            if restarts > 200:
+            if restarts > 3000:
                 out.extend(["not-run"] * (n - i))
                 break
     return out
@@ -275,13 +275,16 @@ def run_lines_resilient_sharded(exe, lines, shards=16, env=None):
     if n == 0:
         return []
     shards = max(1, min(shards, n))
-    step = (n + shards - 1) // shards
-    parts = [lines[i:i + step] for i in range(0, n, step)]
+    # strided shards: process deaths cluster in the input families that provoke them, striding spreads the
+    # restarts evenly
+    parts = [lines[k::shards] for k in range(shards)]
     with concurrent.futures.ThreadPoolExecutor(max_workers=len(parts)) as ex:
         res = list(ex.map(lambda p: run_lines_resilient(exe, p, env), parts))
-    flat = []
-    for r in res:
-        flat.extend(r)
+    flat = [None] * n
+    for k, r in enumerate(res):
+        if len(r) != len(parts[k]):
+            r = (r + ["not-run"] * len(parts[k]))[: len(parts[k])]
+        flat[k::shards] = r
     return flat
 
 
